@@ -203,6 +203,11 @@ pub fn run_case<const N: usize>(c: Case) -> (String, Vec<(String, String)>) {
 
 struct VReg<const N: usize> {
     bits: u8,
+    /// Index of the queue that is created.
+    qidx: u16,
+    /// Create the queue, unset it, re-initialise the device (which resets it) and create the same
+    /// queue again: the second registration is the one that is judged.
+    twice: bool,
 }
 
 impl<const N: usize> crate::drivers::TransportVisitor for VReg<N> {
@@ -212,16 +217,27 @@ impl<const N: usize> crate::drivers::TransportVisitor for VReg<N> {
         let legacy = w.tkind == crate::drivers::TKind::MmioLegacy;
         let _ = t.begin_init(crate::c10::LabFeatures::all());
         let (indirect, event_idx, ap) = (self.bits & 1 != 0, self.bits & 2 != 0, self.bits & 4 != 0);
-        match crate::util::catch(|| VirtQueue::<LabHal, N>::new(&mut t, 0, indirect, event_idx, ap)) {
+        let qi = self.qidx;
+        if self.twice {
+            match crate::util::catch(|| VirtQueue::<LabHal, N>::new(&mut t, qi, indirect, event_idx, ap)) {
+                Ok(Ok(q)) => {
+                    t.queue_unset(qi);
+                    drop(q);
+                }
+                other => v.push(("spurious-refusal".into(), format!("first creation of queue {} failed: {:?}", qi, other.map(|r| r.map(|_| ()))))),
+            }
+            let _ = t.begin_init(crate::c10::LabFeatures::all());
+        }
+        match crate::util::catch(|| VirtQueue::<LabHal, N>::new(&mut t, qi, indirect, event_idx, ap)) {
             Err(p) => v.push(("new-panicked".into(), p)),
             Ok(Err(e)) => v.push(("spurious-refusal".into(), format!("VirtQueue::<_, {}>::new on {} failed with {:?}", N, w.tkind.name(), e))),
             Ok(Ok(q)) => {
                 let (addrs, size) = {
                     let d = w.dev.borrow();
-                    (d.queue_addrs(0), d.queue_addrs(0).map(|a| a.size).unwrap_or(0))
+                    (d.queue_addrs(qi as usize), d.queue_addrs(qi as usize).map(|a| a.size).unwrap_or(0))
                 };
                 match addrs {
-                    None => v.push(("not-registered".into(), format!("queue 0 is not enabled in the device after VirtQueue::new on {}", w.tkind.name()))),
+                    None => v.push(("not-registered".into(), format!("queue {} is not enabled in the device after VirtQueue::new on {} ({})", qi, w.tkind.name(), if self.twice { "second creation after a re-initialisation" } else { "first creation" }))),
                     Some(a) => {
                         if size != N as u32 {
                             v.push(("queue_set-args".into(), format!("device was told queue size {} for a queue of {}", size, N)));
@@ -229,7 +245,13 @@ impl<const N: usize> crate::drivers::TransportVisitor for VReg<N> {
                         check_registered(N, legacy, ap, a.desc, a.driver, a.device, &mut v);
                     }
                 }
-                t.queue_unset(0);
+                // No other queue may have been touched.
+                for other in 0..w.dev.borrow().queues.len() {
+                    if other != qi as usize && w.dev.borrow().queue_addrs(other).is_some() {
+                        v.push(("wrong-queue-registered".into(), format!("creating queue {} registered queue {} in the device", qi, other)));
+                    }
+                }
+                t.queue_unset(qi);
                 drop(q);
                 let live = hal::with(|h| h.live_dma_count());
                 if live != self.bits as usize >> 4 {
@@ -246,14 +268,19 @@ impl<const N: usize> crate::drivers::TransportVisitor for VReg<N> {
 /// platform's DMA addresses moved by `skew` pages; the addresses the *device* ended up with are
 /// held against the same oracle as on the model transport.
 pub fn run_registration<const N: usize>(tkind: crate::drivers::TKind, pre: usize, skew: u32, bits: u8) -> Vec<(String, String)> {
+    run_registration_of::<N>(tkind, pre, skew, bits, 0, false)
+}
+
+pub fn run_registration_of<const N: usize>(tkind: crate::drivers::TKind, pre: usize, skew: u32, bits: u8, qidx: u16, twice: bool) -> Vec<(String, String)> {
     hal::reset();
     hal::with(|h| h.skew_dma(skew as u64));
     let mut keep = vec![];
     for _ in 0..pre {
         keep.push(<LabHal as virtio_drivers::Hal>::dma_alloc(1, virtio_drivers::BufferDirection::Both, false));
     }
-    let w = crate::drivers::DWorld::new(crate::drivers::Kind::Rng, tkind, crate::drivers::F_VERSION_1, vec![]);
-    let mut v = w.with_transport(VReg::<N> { bits: bits | ((pre as u8) << 4) });
+    // (A device with two queues.)
+    let w = crate::drivers::DWorld::new(crate::drivers::Kind::Console, tkind, crate::drivers::F_VERSION_1, crate::drivers::Kind::Console.default_config());
+    let mut v = w.with_transport(VReg::<N> { bits: bits | ((pre as u8) << 4), qidx, twice });
     for (k, d) in hal::with(|h| std::mem::take(&mut h.faults)) {
         v.push((k, d));
     }
